@@ -6,7 +6,7 @@ import json
 import os
 
 VERIF = os.path.dirname(os.path.dirname(os.path.abspath(__file__)))
-PATH = os.path.join(VERIF, "known_findings.json")
+PATH = os.environ.get("VERIF_FINDINGS") or os.path.join(VERIF, "known_findings.json")
 
 
 def load():
